@@ -266,7 +266,7 @@ pub fn run(tier: Tier) -> Report {
     {
         let c = &cfgs[0];
         let r = decode_dyn(c, &[16], &[128], &[128]).unwrap();
-        let (lt, lp) = natural_labels(c.m);
+        let (lt, lp) = labels_for(c.n, c.full, c.m);
         let ok = r.transfer() == lt && r.primaries() == lp;
         if !ok {
             rep.acc.violation(0, "decode-labels".into(), format!("labels {:?}/{:?} not copied from config", r.transfer(), r.primaries()), json!({"kind":"c01","cfg":c.json(),"yuv":[16,128,128]}));
